@@ -114,3 +114,20 @@ Print Assumptions C06_merge_preserves_meaning.
 Theorem C06_written_keys_wf : forall f ms, field_ok f -> key_wf (key_of f ms).
 Proof. exact key_of_wf. Qed.
 Print Assumptions C06_written_keys_wf.
+
+(* ARGUMENT PURITY.  from_dict modelled as the procedure Python runs (document passed by reference):
+   the caller's dict is the same after the call, so the same dict can be loaded again (or dumped as
+   YAML, or compared with to_dict of the loaded object) with the same result.  The correspondence ties
+   this to the code: the argument after every from_dict call is part of the observed output and must
+   equal the model's (i.e. the argument before the call). *)
+Theorem C06_load_leaves_argument :
+  forall (T : Type) (ap : option str -> list mcls -> list sval -> outcome T) arg,
+    snd (from_dict_proc ap arg) = arg.
+Proof. reflexivity. Qed.
+Print Assumptions C06_load_leaves_argument.
+
+Theorem C06_load_twice_same :
+  forall (T : Type) (ap : option str -> list mcls -> list sval -> outcome T) arg,
+    fst (from_dict_proc ap (snd (from_dict_proc ap arg))) = fst (from_dict_proc ap arg).
+Proof. reflexivity. Qed.
+Print Assumptions C06_load_twice_same.
